@@ -147,4 +147,17 @@ def dtBump (t : Int) : List BumpArg → Res Int
   | [] => .ok t
   | b :: bs => (bumpOne t b).bind fun t' => dtBump t' bs
 
+/-- `dt(t, *bumps)` for a datetime `t` (lines 560-561): `reduce(dt_bump, args1, t)`, one `dt_bump` call per argument -/
+def dtReduce (t : Int) : List BumpArg → Res Int
+  | [] => .ok t
+  | b :: bs => (dtBump t [b]).bind fun t' => dtReduce t' bs
+
+/-- `is_period(bump)`: the `period` regex finds a token at the head of the text AS WRITTEN (the regex lists both cases) -/
+def isPeriod (s : String) : Bool := (nextToken s.toList).isSome
+
+/-- `dt(bump)` for a period string (lines 573-574): `dt_bump(dt(0), bump)` where `dt(0)` is today at midnight.  Text that is
+not a period (e.g. a named tenor: `is_period('spot')` is False) goes to the date parser instead (`none` here: see C04). -/
+def dtOfBump (today : Int) (s : String) : Option (Res Int) :=
+  if isPeriod s then some (dtBump today [.str s]) else none
+
 end Pyg.Bump
